@@ -947,7 +947,9 @@ func (x *c05ctx) checkValidated(d *types.Named, minName, maxName, key string) {
 
 // ---------------------------------------------------------------- R05c
 
-func (x *c05ctx) ruleClasses() {
+func (x *c05ctx) ruleClasses() { x.ruleClassesAs("R05c") }
+
+func (x *c05ctx) ruleClassesAs(rule string) {
 	c, e := x.c, x.e
 	isH := map[*types.Named]bool{}
 	for _, h := range x.hs {
@@ -990,11 +992,11 @@ func (x *c05ctx) ruleClasses() {
 		}
 		switch {
 		case len(bad) > 0:
-			c.Bad("R05c", key, rd.Read.Pos(), fmt.Sprintf("Read can return %s, which is not NIL, io.EOF or the reader's fatal type %v: a structural failure (unmet minimum, unexpected data, I/O) would be continuable", strings.Join(bad, ", "), names))
+			c.Bad(rule, key, rd.Read.Pos(), fmt.Sprintf("Read can return %s, which is not NIL, io.EOF or the reader's fatal type %v: a structural failure (unmet minimum, unexpected data, I/O) would be continuable", strings.Join(bad, ", "), names))
 		case len(und) > 0:
-			c.Unknown("R05c", key, rd.Read.Pos(), "error classes of Read not fully resolved: "+strings.Join(und, "; "))
+			c.Unknown(rule, key, rd.Read.Pos(), "error classes of Read not fully resolved: "+strings.Join(und, "; "))
 		default:
-			c.OK("R05c", key, rd.Read.Pos(), set.String()+" ⊆ {NIL, EOF, FATAL"+fmt.Sprint(names)+"}")
+			c.OK(rule, key, rd.Read.Pos(), set.String()+" ⊆ {NIL, EOF, FATAL"+fmt.Sprint(names)+"}")
 		}
 	}
 }
